@@ -28,7 +28,7 @@ template <class PP> static LD integrate_norm(const PP &pp, double a, double b, i
 // ---------- (1) generateTimeSequence contract ----------
 static void check_sequence(Ctx &c, const std::string &unit, const PPolyND<1> &pp, double start, double end, double dt, const char *what) {
   std::vector<double> seq = pp.generateTimeSequence(start, end, dt);
-  ++c.st.comparisons;
+  ++c.st.comparisons; if (!c.st.seen(fmt("%a/%a/%a", start, end, dt)) && end > start) ++c.st.nontrivial;
   auto fail = [&](const std::string &m) { c.st.violate(unit, fmt("generateTimeSequence(start=%.17g, end=%.17g, dt=%.17g) [%s]: %s (size %zu)", start, end, dt, what, m.c_str(), seq.size()), {{"what", "time-sequence"}}); };
   if (seq.empty()) { fail("empty sequence"); return; }
   if (!bits_equal(seq[0], start)) { fail("first sample is not the requested start"); return; }
@@ -78,7 +78,7 @@ static void explore_sequences(Ctx &c, long &id) {
       // overload generateTimeSequence(dt) uses the trajectory's own start/end
       if (len > 0) { PPolyND<1> q = PPolyND<1>::zero({start, end}, 1); std::vector<double> a = q.generateTimeSequence(0.01), b = q.generateTimeSequence(start, end, 0.01); ++c.st.comparisons; if (a != b) c.st.violate(unit, "generateTimeSequence(dt) differs from generateTimeSequence(start,end,dt)"); }
     }
-    ++c.st.evaluations; std::string key = fmt("seq/%d/%d/%d", si, li, blk); if (!c.st.seen(key) && len > 0) ++c.st.nontrivial;
+    ++c.st.evaluations; c.st.seen(fmt("seq/%d/%d/%d", si, li, blk));
     if (my % 29 == 0) c.st.sample(fmt("unit %ld: generateTimeSequence start=%g length=%g: dt = length/k for k = %d,%d,..<=%d and dt*(1+-2^-40), dt*(1+-1e-7): %ld sequences checked (first=start, i-th = start+i*dt, strictly increasing, none beyond end+1e-6, ends within 1e-6, end appended iff short by >1e-6)", my, start, len, 1 + blk, 17 + blk, KMAX, ncase));
   }
 }
